@@ -1528,6 +1528,9 @@ class MacroFunction(Macro):
             last_cat = False
             idx = 0
 
+            # Stands for the result of pasting two empty arguments.
+            placemarker = Token("EXPANSION", -1, False, "")
+
             while idx < len(self.replacement):
                 tok = self.replacement[idx]
                 if tok.token == "##":
@@ -1541,6 +1544,8 @@ class MacroFunction(Macro):
                             last = [last]
                     else:
                         last = [last]
+                    if len(last) == 1 and last[0] is placemarker:
+                        last = []
                     idx += 1
                     nexttok = self.replacement[idx]
                     try:
@@ -1566,8 +1571,11 @@ class MacroFunction(Macro):
                             cp.prev_white = prev_white
                             toadd[0].prev_white = prev_white
                         res_tokens.extend(toadd)
-                    else:
+                    elif len(nexttok) > 0:
                         res_tokens.extend(nexttok)
+                    else:
+                        # Keep a following ## from pasting an unrelated token.
+                        res_tokens.append(placemarker)
                     last_cat = True
                 elif tok.token == "#":
                     idx += 1
@@ -1591,6 +1599,7 @@ class MacroFunction(Macro):
                     last_cat = False
                     res_tokens.append(tok)
                 idx += 1
+            res_tokens = [t for t in res_tokens if t is not placemarker]
         else:
             res_tokens = copy(self.replacement)
 
